@@ -186,6 +186,10 @@ class AuthorizationServer(BaseServer):
         if not token:
             raise InvalidTokenError()
 
+        # the temporary credential is bound to the client that requested it
+        if token.get_client_id() != request.client_id:
+            raise InvalidTokenError()
+
         verifier = request.oauth_params.get("oauth_verifier")
         if not verifier:
             raise MissingRequiredParameterError("oauth_verifier")
